@@ -148,7 +148,16 @@ def one_case(rng, idx, dist, focus=False):
         for j, n in enumerate(inter[:3]):
             if n not in tags.values(): tags['i%d' % j] = n
         where = mrng.choice(['fresh', 'fresh_lo', 'fresh_lo', 'same']); malformed = False
-    desc = {'seed': seed, 'ctx': ctx_id, 'tags': tags, 'fmt': fmt, 'via': via, 'where': where, 'malformed': malformed, 'kinds': info['kinds']}
+    # a writer session that wrote other archives of the same / overlapping numbers before, and changed its state since
+    # (correlations declared or re-declared, ensembles extended, labels given by result(), new results): the archive
+    # under test must be what _freeze makes of the state at ITS write time
+    history = []
+    if mrng.random() < 0.5:
+        history, _ = arch.prior_writes(mrng, pool, tags)
+        dist['prior_writes'] = dist.get('prior_writes', 0) + 1
+        for h in history: dist['between:' + h[0]] = dist.get('between:' + h[0], 0) + 1
+    desc = {'seed': seed, 'ctx': ctx_id, 'tags': tags, 'fmt': fmt, 'via': via, 'where': where, 'malformed': malformed, 'kinds': info['kinds'],
+            'history': history}
     for k in info['kinds']: dist['decl:' + k] = dist.get('decl:' + k, 0) + 1
     dist['fmt:' + fmt] = dist.get('fmt:' + fmt, 0) + 1
     dist['where:' + where] = dist.get('where:' + where, 0) + 1
@@ -320,7 +329,9 @@ def correspondence(rng, tier):
     return {'programs': n + dn, 'steps': 6 * n + sum(len(d.get('continued', [])) for d in descs) + dres['observations'], 'mismatches': mismatches, 'distinct': distinct,
             'distribution': dist,
             'rule': 'history = random model (independent / correlated / ensemble reals, independent / correlated / ensemble complex, '
-                    'nested real and complex intermediates, labels incl. None and "") -> random tagged subset -> dump with '
+                    'nested real and complex intermediates, labels incl. None and "") -> in half of the histories the writer first dumps 1-2 EARLIER '
+                    'archives of overlapping numbers and changes its state after each (correlations declared / re-declared, ensemble extended, label '
+                    'given by result(), new results): every archive must reflect the state at ITS write time -> random tagged subset -> dump with '
                     '{pickle, JSON, XML} x {string, file} -> {fresh context with a larger / a smaller context id than the writing session, '
                     'same session, same session with a correlation changed, context id reused for other numbers} -> load; 15% of JSON '
                     'documents damaged; each stage (freeze, two encoders, two decoders, thaw incl. registries) compared bit-exactly with the '
@@ -370,10 +381,15 @@ def diff_one(seed, ctx_id, fmt, via, where, focus=False):
     if focus:
         for j, n in enumerate([n for n, o in pool.items() if o.is_intermediate][:3]):
             if n not in tags.values(): tags['i%d' % j] = n
+    cont_seed = mrng.getrandbits(32)
+    history = []; priors = []
+    if mrng.random() < 0.5:
+        # earlier archives of overlapping numbers, each observed at its write time, then state changes (see arch.prior_writes)
+        history, priors = arch.prior_writes(mrng, pool, tags, observe_seed=cont_seed)
     flags = arch.archive_flags(tags, pool)
     flags['nan_df_intermediate'] = nan_df_intermediate(tags, pool)
-    cont_seed = mrng.getrandbits(32)
-    rec = {'seed': seed, 'ctx': ctx_id, 'fmt': fmt, 'via': via, 'where': where, 'focus': focus, 'flags': flags, 'explained_by': None}
+    rec = {'seed': seed, 'ctx': ctx_id, 'fmt': fmt, 'via': via, 'where': where, 'focus': focus, 'flags': flags, 'explained_by': None,
+           'history': history}
     try:
         ar = arch.make_archive(tags, pool, legacy=(fmt == 'legacy'))
         doc = arch.dump_with(fmt, ar, via)
@@ -407,6 +423,20 @@ def diff_one(seed, ctx_id, fmt, via, where, focus=False):
         rec['differs'] = [(k, want[k], got.get(k)) for k in bad]
         rec['explained_by'] = explained(fmt, where, flags, want, got)
         return rec, len(want)
+    # every EARLIER archive of the session must still restore what was there at ITS write time
+    for w, (pfmt, pvia, pdoc, ptags, snap, pflags) in enumerate(priors):
+        new_context(ctx_id + 9000 + w)
+        try:
+            arp = arch.load_with(pfmt, pdoc, pvia)
+            gotp = arch.observe({t: arp[t] for t in ptags}, cont_seed)
+        except Exception as ex:
+            rec['earlier_archive'] = w; rec['raised_on_load'] = repr(ex); return rec, len(want)
+        if gotp != snap:
+            bad = sorted(k for k in snap if snap[k] != gotp.get(k))[:6]
+            rec['earlier_archive'] = w; rec['fmt_earlier'] = pfmt
+            rec['differs'] = [(k, snap[k], gotp.get(k)) for k in bad]
+            rec['explained_by'] = explained(pfmt, 'fresh', pflags, snap, gotp)
+            return rec, len(want)
     return None, len(want)
 
 def is_known(f):
